@@ -283,3 +283,229 @@ pub fn cache_replay(args: &Args, s: &mut Summary) {
         }
     });
 }
+
+// ---------------------------------------------------------------------------
+// CurveLength!Contract / CutOrExtend restated on the REAL natural polyline: the model enumerates
+// lattice polylines (straight segments); for Bezier, perfect-curve, Catmull and b-spline segments the
+// natural polyline is whatever the approximators produce, and the contract is evaluated on it.
+
+fn gen_cps(rng: &mut Rng) -> Vec<PathControlPoint> {
+    let n = 1 + rng.below(12);
+    let coord = |rng: &mut Rng| -> f32 {
+        match rng.below(5) {
+            0 => rng.below(512) as f32,
+            1 => rng.below(40) as f32 - 10.0,
+            2 => rng.below(5120) as f32 / 10.0,
+            3 => rng.below(512000) as f32 / 1000.0 - 100.0,
+            _ => (rng.below(64) * 8) as f32,
+        }
+    };
+    let ty = |rng: &mut Rng| -> PathType {
+        match rng.below(9) {
+            0 | 1 => PathType::LINEAR,
+            2 | 3 => PathType::BEZIER,
+            4 | 5 => PathType::PERFECT_CURVE,
+            6 | 7 => PathType::CATMULL,
+            _ => PathType::new_b_spline(std::num::NonZeroI32::new(1 + rng.below(4) as i32).unwrap()),
+        }
+    };
+    let mut v: Vec<PathControlPoint> = vec![];
+    let shape = rng.below(8);
+    for i in 0..n {
+        let pos = if i > 0 && rng.chance(1, 7) {
+            v[i - 1].pos // a duplicate
+        } else if i > 1 && shape == 0 {
+            // a collinear run
+            let d = v[1].pos - v[0].pos;
+            v[i - 1].pos + d
+        } else {
+            Pos::new(coord(rng), coord(rng))
+        };
+        let path_type = if i == 0 { Some(ty(rng)) } else if rng.chance(1, 5) { Some(ty(rng)) } else { None };
+        v.push(PathControlPoint { pos, path_type });
+    }
+    match shape {
+        // an almost flat three-point arc: the middle point a hair off the chord
+        1 if n >= 3 => {
+            let a = v[0].pos;
+            let c = v[2].pos;
+            let off = *rng.pick(&[0.01f32, 0.05, 0.1, 0.3, 1.0, -0.02]);
+            v[1].pos = Pos::new((a.x + c.x) / 2.0 + off * 0.3, (a.y + c.y) / 2.0 + off);
+            v[0].path_type = Some(PathType::PERFECT_CURVE);
+            v[1].path_type = None;
+            v[2].path_type = if n > 3 { Some(PathType::LINEAR) } else { None };
+        }
+        // a zig-zag Catmull
+        2 => {
+            for (i, p) in v.iter_mut().enumerate() {
+                p.pos = Pos::new(if i % 2 == 0 { 0.0 } else { 40.0 + (i as f32) }, 30.0 * i as f32);
+                p.path_type = if i == 0 { Some(PathType::CATMULL) } else { None };
+            }
+        }
+        // a single typed arc or Catmull in the middle of straight pieces
+        3 if n >= 6 => {
+            v[0].path_type = Some(PathType::LINEAR);
+            v[2].path_type = Some(if rng.chance(1, 2) { PathType::CATMULL } else { PathType::PERFECT_CURVE });
+            v[3].path_type = None;
+            v[4].path_type = None;
+            v[5].path_type = Some(PathType::LINEAR);
+        }
+        _ => {}
+    }
+    v
+}
+
+fn has_catmull(cps: &[PathControlPoint]) -> bool {
+    let mut cur = None;
+    for (i, c) in cps.iter().enumerate() {
+        if c.path_type.is_some() {
+            cur = c.path_type;
+        }
+        // a segment needs a following point to produce anything
+        if cur == Some(PathType::CATMULL) && i + 1 < cps.len() {
+            return true;
+        }
+    }
+    false
+}
+
+fn shape_errors(curve: &Curve, what: &str, errs: &mut Vec<String>) {
+    let lens = curve.lengths();
+    if lens.first().copied() != Some(0.0) {
+        errs.push(format!("{what}: cumulative lengths do not start at 0: {:?}", lens.first()));
+    }
+    if lens.iter().any(|l| !l.is_finite()) || curve.path().iter().any(|p| !p.x.is_finite() || !p.y.is_finite()) || !curve.dist().is_finite() {
+        errs.push(format!("{what}: non-finite value in the curve (lengths {:?})", &lens[..lens.len().min(6)]));
+    }
+    if lens.windows(2).any(|w| w[1] < w[0] - 1e-5) {
+        errs.push(format!("{what}: cumulative lengths decrease"));
+    }
+    if !(lens.len() == curve.path().len() || lens.len() == curve.path().len() + 1) {
+        errs.push(format!("{what}: {} lengths for {} points", lens.len(), curve.path().len()));
+    }
+}
+
+pub fn relations(args: &Args, s: &mut Summary) {
+    let iters = args.opt_usize("iters", 20000);
+    let mut rng = Rng::new(args.seed);
+    for it in 0..iters {
+        let cps = gen_cps(&mut rng);
+        let label = format!("curve relations {:?}", cps);
+        let cat = has_catmull(&cps);
+        let r = guarded(&label, || {
+            let mut errs: Vec<String> = vec![];
+            let mut nat_dists: Vec<f64> = vec![];
+            for mode in MODES {
+                let mut bufs = CurveBuffers::default();
+                let nat = Curve::new(mode, &cps, None, &mut bufs);
+                shape_errors(&nat, &format!("{mode:?} natural"), &mut errs);
+                let p = nat.path().to_vec();
+                let own: f64 = p.windows(2).map(|w| f64::from((w[1] - w[0]).length())).sum();
+                nat_dists.push(nat.dist());
+                // without a requested length the distance is the polyline's own length (the osu! Catmull
+                // simplification removes vertices and carries their length separately: compared across modes below)
+                if !(cat && mode == GameMode::Osu) && (nat.dist() - own).abs() > 1e-9 * own.max(1.0) {
+                    errs.push(format!("{mode:?} natural distance {} is not the polyline's own length {own}", nat.dist()));
+                }
+                let nd = nat.dist();
+                let dup_end = p.len() >= 2 && p[p.len() - 1] == p[p.len() - 2];
+                let choices = [1e-3, nd * 0.37, nd * 0.5 + 0.123, (nd - 1e-9).max(1e-6), nd, nd + 1e-9, nd + 3.5, nd * 2.0 + 1.0, 99_999.5, -5.0, 0.0];
+                for l in choices {
+                    let mut b2 = CurveBuffers::default();
+                    let adj = Curve::new(mode, &cps, Some(l), &mut b2);
+                    let what = format!("{mode:?} L={l}");
+                    shape_errors(&adj, &what, &mut errs);
+                    if (nd - l).abs() < f64::EPSILON {
+                        if adj != nat {
+                            errs.push(format!("{what}: the requested length is the natural one but the curve changed"));
+                        }
+                        continue;
+                    }
+                    if p.len() == 1 || (dup_end && l > nd) {
+                        if adj.dist() != nd {
+                            errs.push(format!("{what}: exception case (single point / repeated end) but distance {} is not the natural {nd}", adj.dist()));
+                        }
+                        continue;
+                    }
+                    if l > 0.0 && p.len() >= 2 {
+                        if adj.dist() != l {
+                            errs.push(format!("{what}: distance {} is not the requested length (natural {nd})", adj.dist()));
+                        }
+                        // cut or extend: all vertices but the last are natural vertices, the last lies on the segment it replaces
+                        let q = adj.path();
+                        if q.len() > p.len() || q.len() < 2 || q[..q.len() - 1] != p[..q.len() - 1] {
+                            errs.push(format!("{what}: the adjusted curve is not a prefix of the natural one plus an end point"));
+                        } else {
+                            let k = q.len() - 1;
+                            let (a, b, e) = (p[k - 1], p[k], q[k]);
+                            let rem = l - adj.lengths()[k - 1];
+                            let d = b - a;
+                            let len = f64::from(d.length());
+                            if len > 0.0 {
+                                let t = 1e-3 + 1e-4 * (rem.abs() + f64::from(a.x.abs().max(a.y.abs())));
+                                let (wx, wy) = (f64::from(a.x) + f64::from(d.x) / len * rem, f64::from(a.y) + f64::from(d.y) / len * rem);
+                                if rem <= 0.0 || (f64::from(e.x) - wx).abs() > t || (f64::from(e.y) - wy).abs() > t {
+                                    errs.push(format!("{what}: end point ({}, {}) is not at distance {rem} along the segment ({}, {})->({}, {})", e.x, e.y, a.x, a.y, b.x, b.y));
+                                }
+                            }
+                        }
+                    }
+                    // (L <= 0 is outside the statement; on the lattice the model pins what the code does with it)
+                }
+                if !errs.is_empty() {
+                    break;
+                }
+            }
+            // in osu! mode the simplification of Catmull paths leaves the total length unchanged
+            if errs.is_empty() && cat {
+                let (o, t) = (nat_dists[0], nat_dists[1]);
+                if (o - t).abs() > 1e-5 * t.max(1.0) {
+                    errs.push(format!("Catmull simplification changed the natural length: osu! {o} vs {t}"));
+                }
+            }
+            errs
+        });
+        s.cases += 1;
+        s.checks += 44;
+        if cps.len() >= 3 {
+            s.nontrivial_key(&format!("{it}"));
+        }
+        match r {
+            Err(p) => s.mismatch("panic", json!({"cps": format!("{cps:?}"), "panic": p})),
+            Ok(errs) if !errs.is_empty() => {
+                let sig = if errs[0].contains("non-finite") { "curve-contract:non-finite" } else if errs[0].contains("Catmull") { "curve-contract:catmull-length" } else { "curve-contract" };
+                s.mismatch(sig, json!({"cps": format!("{cps:?}"), "errors": errs.iter().take(4).collect::<Vec<_>>()}));
+            }
+            Ok(_) => {
+                if it < 3 {
+                    s.sample(json!({"cps": format!("{cps:?}")}));
+                }
+            }
+        }
+    }
+}
+
+/// debugging aid: `curve show --cps "x,y,T;x,y,-;..." --len L` prints the curve in every mode
+pub fn show(args: &Args, _s: &mut Summary) {
+    let cps: Vec<PathControlPoint> = args.opt("cps").expect("--cps").split(';').map(|t| {
+        let f: Vec<&str> = t.split(',').collect();
+        PathControlPoint {
+            pos: Pos::new(f[0].parse().unwrap(), f[1].parse().unwrap()),
+            path_type: match f[2] {
+                "L" => Some(PathType::LINEAR),
+                "B" => Some(PathType::BEZIER),
+                "P" => Some(PathType::PERFECT_CURVE),
+                "C" => Some(PathType::CATMULL),
+                _ => None,
+            },
+        }
+    }).collect();
+    let l: Option<f64> = args.opt("len").map(|x| x.parse().unwrap());
+    for mode in MODES {
+        let mut bufs = CurveBuffers::default();
+        let c = Curve::new(mode, &cps, l, &mut bufs);
+        let n = c.path().len();
+        eprintln!("{mode:?}: {} points, dist {}, first points {:?} last {:?}, lens first {:?} last {:?}", n, c.dist(), &c.path()[..n.min(4)],
+                  c.path().last(), &c.lengths()[..c.lengths().len().min(4)], c.lengths().last());
+    }
+}
